@@ -238,6 +238,15 @@ def run(ctx):
             if not (I128_MIN <= y.ticks <= I128_MAX) or r != ("ok", (y.ticks, y.ticks, y.ticks)):
                 ctx.violation(path=label, value=repr(x), observed=f"ticks {y.ticks}; tuple / pickle / from_ticks round trip: {show(r)[:120]}",
                               required="a tick count in [-2^127, 2^127) that round-trips, or OverflowError")
+    # integers far outside the range (thousands of digits) are rejected like any other integer outside it
+    for huge in (10**5000, -10**5000, 1 << 20000, -(1 << 70000)):
+        for label, f in (("TimeDelta.from_ticks", lambda: bt.TimeDelta.from_ticks(huge)), ("DateTime.from_ticks", lambda: bt.DateTime.from_ticks(huge)),
+                         ("TimeDelta(int)", lambda: bt.TimeDelta(huge)), ("TimeDelta.from_tuple", lambda: bt.TimeDelta.from_tuple(bt.TimeValueTuple(huge, 0))),
+                         ("DateTime.from_tuple", lambda: bt.DateTime.from_tuple(bt.TimeValueTuple(0, huge)))):
+            o = outcome(f)
+            ctx.case(("huge", label, huge.bit_length()))
+            if o[:2] != ("err", "OverflowError"):
+                ctx.violation(path=label, value=f"an integer of {huge.bit_length()} bits", observed=show(o)[:160], required="OverflowError")
     # wrong types never produce a value
     for bad in (1.5, "1", None, b"1"):
         for cls in (bt.TimeDelta, bt.DateTime):
